@@ -1,5 +1,5 @@
 From Coq Require Import ZArith NArith List Bool.
-From CL Require Import Base.Sx Base.Res Base.Str Model.AddRemove Model.Compare.
+From CL Require Import Base.Sx Base.Res Base.Str Model.AddRemove Model.Compare Model.CountWords.
 Import ListNotations.
 Open Scope Z_scope.
 
@@ -75,6 +75,8 @@ Definition dispatch (f : Z) (x : sx) : sx :=
                 (add_file (verdict_of (to_Z (nth_sx 0 x))) (to_list cent_of (nth_sx 1 x)))
   | 2 => (* isinstance(k, str) and keyRE.search(k) *)
       of_bool (py_keyname (key_of x))
+  | 3 => (* Entry.count_words on a value *)
+      of_result of_nat (count_words (to_str x))
   | _ => sx_err
   end.
 
